@@ -946,6 +946,17 @@ def rule_group_config(ctx, rep):
     absx = {k: w.getattr(v, "transacton_id") for k, v in w.getattr(grp, "absolute_indexes").items()}
     rep.check(absx == {0: "T0", 2: "T2"}, rule, "absolute index table", where, absx, {0: "T0", 2: "T2"})
     rep.check(w.getattr(tl, "output_group") is True, rule, "group mode selected", where, w.getattr(tl, "output_group"), True)
+    # the version entry of the configuration does not override the version the program declares
+    try:
+        doc_v = cfg(base)
+        doc_v["contracts"] = [dict(c, version=2) for c in doc_v["contracts"]]
+        tl_v = w.call(init, w.call(from_yaml, doc_v))
+        vers = sorted({w.getattr(c, "version") for c in w.getattr(tl_v, "contracts").values()})
+        modes = sorted({w.getattr(c, "mode").name for c in w.getattr(tl_v, "contracts").values()})
+    except PyRaise as e:
+        vers, modes = f"RAISES {e.exc} {e.where}", None
+    rep.check(vers == [6], rule, "contracts keep the version they declare (#pragma version 6) whatever the configuration says", where, vers, [6],
+              why="version-dependent results (unsupported instructions, costs) would follow the configuration file instead of the program")
     # verdicts on the configured group, marker contexts on the leaf blocks of the three functions
     fA, fB, fAPP = w.getattr(txs["T0"], "logic_sig"), w.getattr(txs["T1"], "logic_sig"), w.getattr(txs["T1"], "application")
     dets = path_detectors(ctx)
